@@ -17,6 +17,9 @@ BENIGN_PROPS = {
     "r1_": ["C01", "C02", "C03", "C04", "C05", "C06", "C13", "C12", "C14", "C16"],
     "r2_": ["C09", "C15", "C07", "C08", "C10", "C11", "C12", "C13"],
     "r3_": ["C16", "C14", "C13", "C06", "C12"],
+    "r5_": ["C06", "C01", "C13", "C14", "C12", "C05", "C04"],
+    "r6_": ["C03", "C05", "C02", "C01", "C06", "C13", "C12"],
+    "r7_": ["C02", "C05", "C03", "C01", "C13", "C04"],
     "r4_": ["C01", "C02", "C03", "C04", "C05", "C06", "C13", "C12", "C16"],
 }
 
